@@ -51,6 +51,12 @@ CASES = {
         raw('r1', [['c'], con(b'r1'), ['w', T['CONNECT_CNF'], 1000], treq(), ['r', 100], ret(), ['r', 250], ret('token returned by a client that does not hold it'), ['r', 900], ['x']], 50),
         lib('t0', [['C', pref.VPS, 0, 5, 0], ['O', 0], ['G', 0], ['Q', 1, 0x10, 5, 1], ['T', 1200], ['D']], 250),
         raw('r2', [['c'], con(b'r2'), ['w', T['CONNECT_CNF'], 1000], treq(sub=0x40), ['r', 500], ['x']], 700)]),
+    ('C19', 'F14-token-taken-from-holder-with-pending-reclaim'): base('C19', kind='token', period_us=500000, clients=[
+        lib('w0', [['C', pref.TTX_B, 0, 5, 0], ['Q', 1, 0, 0, 0], ['T', 2500], ['D']]),
+        lib('t1', [['C', pref.VPS, 0, 5, 0], ['O', 0], ['G', 0], ['Q', 1, 0, 0, 0], ['S', 800], ['Q', 1, 0x20, 0, 1], ['T', 700], ['D']]),
+        raw('r0', [['c'], con(b'r0'), ['w', T['CONNECT_CNF'], 1000], treq(), ['r', 1900], ['x']], 100),
+        raw('f9', [['c'], con(b'f9'), ['w', T['CONNECT_CNF'], 1000],
+                   S(m.raw(T['CHN_TOKEN_REQ'], m.token_req(3, 1, 0x20, 0)), t='CHN_TOKEN_REQ', ask=True, rel=True), ['r', 300], ['x']], 400)]),
     ('C19', 'F12-client-library-ioctl-overflow'): base('C19', clients=[lib('c0', [['C', pref.VPS, 0, 5, 0], ['R', 3], ['I', 0], ['R', 3], ['D']])]),
     # ---- C18
     ('C18', 'F4-update-services-strict-100'): base('C18', clients=[lib('c0', [['C', pref.TTX_B, 0, 5, 0], ['R', 5], ['U', pref.VPS, 100, 0], ['R', 5], ['D']])]),
